@@ -21,7 +21,7 @@ CASE_TIMEOUT = 900
 
 # (the first line carries characters that some line-splitting routines take for line ends - form feed, vertical tab,
 # the ASCII separators, NEL, LINE SEPARATOR, a bare CR: positions must keep counting '\\n' only)
-PRE = ('TYPE zt\nfa AS INTEGER\nfb AS STRING\nEND TYPE\nDIM zarr(3) AS INTEGER\nDIM zrec AS zt\nCONST zconst% = 5\n'
+PRE = ('TYPE zt   \nfa AS INTEGER\t\nfb AS STRING  \t \nEND TYPE\nDIM zarr(3) AS INTEGER\nDIM zrec AS zt\nCONST zconst% = 5\n'
        'CONST zcs$ = "abc"\nzlab1:\n10 zn% = 1\nDIM zdyn(zn% + 2) AS INTEGER\nDIM zdyn2(1 TO zn% + 1, 2) AS LONG\n'
        'CONST zctl$ = "a\x0cb\x1cc\x0b" \' \x1d\x1e \x85 \u2028 \r x\n')
 POST = ('SUB zsubi (p%)\nzsublab: p% = 1\nzlate$ = zcs$\nEND SUB\nFUNCTION zfunci% (p%)\nzfunci% = p%\nEND FUNCTION\n')
@@ -91,6 +91,20 @@ CATALOGUE = [
     ('dup-lineno', ['10 zn% = 2'], ['compile:DUPLICATE_LABEL'], 'dup', 'mb'),
     ('dup-dim', ['DIM zarr(5)'], ['compile:DUPLICATE_DEFINITION'], 'dup', 'm'),
     ('dup-dim-twice', ['DIM zarr2(2)', 'DIM zarr2(3)'], ['compile:DUPLICATE_DEFINITION'], 'inj', 'mp'),
+    # a second definition of another kind than the first (implicit use, DIM, DIM SHARED, STATIC, CONST, parameter, procedure)
+    ('dup-shared-after-implicit', ['zdimp1 = 1', 'DIM SHARED zdimp1'], ['compile:DUPLICATE_DEFINITION'], 'inj', 'm'),
+    ('dup-shared-after-dim', ['DIM zdd1 AS LONG', 'DIM SHARED zdd1 AS LONG'], ['compile:DUPLICATE_DEFINITION'], 'inj', 'm'),
+    ('dup-dim-after-shared', ['DIM SHARED zdd2', 'DIM zdd2'], ['compile:DUPLICATE_DEFINITION'], 'inj', 'm'),
+    ('dup-shared-array-after-dim', ['DIM zdd6(3)', 'DIM SHARED zdd6(3)'], ['compile:DUPLICATE_DEFINITION'], 'inj', 'm'),
+    ('dup-dim-after-implicit', ['zdq2 = 1', 'DIM zdq2 AS INTEGER'], ['compile:DUPLICATE_DEFINITION'], 'inj', 'mp'),
+    ('dup-const-after-use', ['zdq3 = 1', 'CONST zdq3 = 2'], ['compile:DUPLICATE_DEFINITION'], 'inj', 'mp'),
+    ('dup-array-after-implicit-array', ['zdq5(1) = 1', 'DIM zdq5(3)'], ['compile:DUPLICATE_DEFINITION'], 'inj', 'mp'),
+    ('dup-static-after-use', ['zdq1 = 1', 'STATIC zdq1'], ['compile:DUPLICATE_DEFINITION'], 'inj', 'p'),
+    ('dup-static-twice', ['STATIC zdq8', 'STATIC zdq8'], ['compile:DUPLICATE_DEFINITION'], 'inj', 'p'),
+    ('dup-param-dim', ['SUB zdsub4 (a)', 'DIM a', 'END SUB'], ['compile:DUPLICATE_DEFINITION'], 'inj', 'm'),
+    ('dup-shared-redimmed-in-sub', ['DIM SHARED zdq7', 'SUB zdsub7', 'DIM zdq7', 'END SUB'], ['compile:DUPLICATE_DEFINITION'], 'inj', 'm'),
+    ('dup-var-named-like-sub', ['zsubi = 1'], ['compile:DUPLICATE_DEFINITION'], 'inj', 'mb'),
+    ('dup-dim-named-like-function', ['DIM zfunci'], ['compile:DUPLICATE_DEFINITION'], 'inj', 'm'),
     ('dup-const', ['CONST zconst% = 6'], ['compile:DUPLICATE_DEFINITION'], 'dup', 'm'),
     ('dup-sub', ['SUB zsubi', 'END SUB'], ['compile:DUPLICATE_DEFINITION'], 'dup', 'm'),
     ('dup-function', ['FUNCTION zfunci%', 'END FUNCTION'], ['compile:DUPLICATE_DEFINITION'], 'dup', 'm'),
